@@ -3,7 +3,7 @@
 # /repo's working tree into the cache and a smoke test of the TLA+ tools.
 cd "$(dirname "$0")" || exit 2
 /venv/bin/python -m mbv.build || exit 2
-out=$(java -XX:+UseParallelGC -cp /opt/veriftools/tla/tla2tools.jar:/opt/veriftools/tla/CommunityModules-deps.jar tla2sany.SANY spec/Solver.tla 2>&1)
+out=$(cd spec && java -XX:+UseParallelGC -cp /opt/veriftools/tla/tla2tools.jar:/opt/veriftools/tla/CommunityModules-deps.jar tla2sany.SANY Solver.tla 2>&1)
 if echo "$out" | grep -qi "error"; then echo "$out"; echo "SANY failed"; exit 2; fi
 echo setup-ok
 exit 0
